@@ -33,6 +33,12 @@ def run(ctx):
             continue
         n, nev, rej = core.validate_cases(ctx, "dial", "DialTrace", "DialTrace.cfg", os.path.join(out, "c18.ndjson"), prefix="race" if race else "")
         report_rejections(ctx, rej, signature, "dial trace rejected by the C18 contract" + (" (race build)" if race else ""))
+        if not rej and not race:
+            # growth: the cache refresher's life cycle (Dial!RefresherStops) - documented behaviour, reported as drift only
+            ref = [c for c in core.split_cases(os.path.join(out, "c18.ndjson")) if '"mode":"refresh"' in c[1][0]]
+            _, _, rrej = core.validate_cases(ctx, "dial", "DialTrace", "DialTraceStrict.cfg", None, cases=ref, prefix="strict")
+            for start, lines, off in rrej:
+                ctx.drift.append("cache refresher life cycle differs from Dial.tla (one goroutine while attacking, none after Stop, re-resolves): " + lines[off - 1].strip()[:200])
         summ = json.load(open(os.path.join(out, "c18.summary.json")))
         tot_n, tot_ev = tot_n + n, tot_ev + nev
         samples = samples or summ["samples"]
